@@ -22,7 +22,7 @@ theorem tokenizeV_text (o : FOpts) (b : Bytes) (ts : List Tok) (h : tokenizeV o 
   refine tokenize_text_gen o.gopts (nameKey o) b ts ht ?_ ?_
   · intro raw hm
     have h1 := hk.1 _ hm
-    simp only [strOK, Bool.or_eq_true] at h1
+    simp only [strOKV, Bool.or_eq_true] at h1
     cases hu : o.allowInvalidUTF8 with
     | true =>
       simp only [FOpts.gopts, hu, Bool.not_true]
@@ -48,7 +48,7 @@ theorem text_tokenizeV (o : FOpts) (b : Bytes) (h : JText o.gopts maxDepth (name
   · intro k hk
     cases k with
     | str raw =>
-      simp only [strOK, Bool.or_eq_true]
+      simp only [strOKV, Bool.or_eq_true]
       cases hu : o.allowInvalidUTF8 with
       | true => exact Or.inl rfl
       | false =>
